@@ -45,6 +45,11 @@ var pool = []text{
 	{"v2.yang", `module v { ` + H("v") + ` revision 2021-06-01; revision 2020-01-01; import g { prefix g; } typedef vt { type string { length "1..4"; pattern "a+"; } units new; } grouping vg { leaf gnew { type vt; } leaf-list gll { type vt; } } container vc { leaf new { type vt; } } identity vi; identity vj { base vi; } deviation /g:c/g:x { deviate add { default 5; } } }`, "v@2021-06-01", true},
 	{"w.yang", `module w { ` + H("w") + ` import v { prefix v; revision-date 2020-01-01; } identity wi { base v:vi; } augment /v:vc { leaf wa { type v:vt; } } typedef wt { type v:vt; } leaf wl { type wt; } container wu { uses v:vg; } }`, "w", true},
 	{"x.yang", `module x { ` + H("x") + ` import v { prefix v; } identity xi { base v:vi; } typedef xt { type v:vt; } leaf xl { type xt; } leaf xl2 { type v:vt; } container xu { uses v:vg; } grouping xg { uses v:vg; } container xu2 { uses xg; } leaf xr { type identityref { base v:vi; } } }`, "x", true},
+	// two revisions of a submodule, the module that includes it (date-less) and an importer of that module
+	{"sm.yang", `module sm { ` + H("sm") + ` include ss; leaf q { type st; } container smc { uses sg; } }`, "sm", true},
+	{"ss1.yang", `submodule ss { belongs-to sm { prefix sm; } revision 2020-01-01; typedef st { type int8; } grouping sg { leaf old { type st; } } container sc { leaf a { type st; } } identity si; }`, "ss@2020-01-01", true},
+	{"ss2.yang", `submodule ss { belongs-to sm { prefix sm; } revision 2021-06-01; typedef st { type string; } grouping sg { leaf new { type st; } leaf-list nl { type st; } } container sc { leaf b { type st; } } identity si; identity sj { base si; } }`, "ss@2021-06-01", true},
+	{"su.yang", `module su { ` + H("su") + ` import sm { prefix sm; } leaf r { type identityref { base sm:si; } } leaf t { type sm:st; } container suc { uses sm:sg; } }`, "su", true},
 	{"nomand.yang", `module nm { prefix nm; typedef z { type int8; } container nc { typedef nz { type int8 { range "5..1"; } } list nl { typedef nz2 { type nosuch2; } key k; leaf k { type nz2; } } } }`, "", false},
 }
 
@@ -53,6 +58,24 @@ const (
 	opRead    = -2
 	opGet     = -3 // GetModule("g"): processes the set and returns the module's tree
 )
+
+// groups: the texts that interact with each other. The quick tier explores every history within a
+// group (texts of different groups share nothing, so a history across groups is two histories side
+// by side); the thorough tier also explores the whole pool.
+var groups = [][]string{
+	{"g.yang", "h.yang", "k.yang", "r.yang", "syntax.yang", "b1.yang", "b2.yang", "gdup.yang", "nomand.yang"},
+	{"g.yang", "gm.yang", "gsub.yang", "h.yang", "b2.yang", "syntax.yang"},
+	{"g.yang", "v1.yang", "v2.yang", "w.yang", "x.yang", "b1.yang"},
+	{"sm.yang", "ss1.yang", "ss2.yang", "su.yang", "b1.yang"},
+}
+
+func groupOps(gi int) []int {
+	o := []int{opProcess}
+	for _, n := range groups[gi] {
+		o = append(o, poolIndex(n))
+	}
+	return append(o, opRead, opGet)
+}
 
 func ops() []int {
 	o := []int{opProcess}
@@ -180,6 +203,9 @@ func runHistory(h []int) (f *fail, procs int, steps int) {
 							fp = "trees-after-failed-run-differ"
 						}
 					}
+					if lateRevision(h[:step+1]) && maskTypes(got) == maskTypes(want) {
+						fp += ":only-types-resolved-by-an-earlier-run"
+					}
 					res = &fail{fp, want, got + fmt.Sprintf("\n(after step %d)", step)}
 					return
 				}
@@ -196,6 +222,9 @@ func runHistory(h []int) (f *fail, procs int, steps int) {
 					fp := "getmodule-differs-from-batch"
 					if strings.HasPrefix(want, "getmodule errors") && !strings.HasPrefix(got, "getmodule errors") {
 						fp = "getmodule-errors-lost"
+					}
+					if lateRevision(h[:step+1]) && maskTypes(got) == maskTypes(want) {
+						fp += ":only-types-resolved-by-an-earlier-run"
 					}
 					res = &fail{fp, want, got + fmt.Sprintf("\n(after step %d)", step)}
 					return
@@ -309,9 +338,18 @@ func depth(tier string) int {
 
 func shards(tier string) []string {
 	var out []string
-	for _, a := range ops() {
-		for _, b := range ops() {
-			out = append(out, fmt.Sprintf("h/%d/%d", a, b))
+	for gi := range groups {
+		for _, a := range groupOps(gi) {
+			for _, b := range groupOps(gi) {
+				out = append(out, fmt.Sprintf("g%d/%d/%d", gi, a, b))
+			}
+		}
+	}
+	if tier == "thorough" {
+		for _, a := range ops() {
+			for _, b := range ops() {
+				out = append(out, fmt.Sprintf("h/%d/%d", a, b))
+			}
 		}
 	}
 	return append(append(out, scalekit.ShardNames()...), fileShards()...)
@@ -334,11 +372,17 @@ func run(c *core.Ctx) {
 		runFiles(c)
 		return
 	}
-	var a, b int
-	fmt.Sscanf(c.Shard, "h/%d/%d", &a, &b)
-	D := depth(c.Tier)
-	c.Res.Bound = fmt.Sprintf("all histories of %d operations over {process, getmodule(g), read, load(t) for %d texts} (every shorter history ending in process is a checked prefix); scale: a module with 1..24 (65) imports or submodules loaded without one of them, processed, read, completed and processed again", D, len(pool))
+	var a, b, gi int
 	all := ops()
+	D := depth(c.Tier)
+	if strings.HasPrefix(c.Shard, "h/") {
+		fmt.Sscanf(c.Shard, "h/%d/%d", &a, &b)
+		D = 6 // the whole pool: one operation less than the groups get in the thorough tier
+	} else {
+		fmt.Sscanf(c.Shard, "g%d/%d/%d", &gi, &a, &b)
+		all = groupOps(gi)
+	}
+	c.Res.Bound = fmt.Sprintf("all histories of %d operations over {process, getmodule(g), read, load(t)} within each of 4 groups of interacting texts (%d texts in all; thorough: also all histories of 6 operations over the whole pool); every shorter history ending in process is a checked prefix; scale: a module with 1..24 (65) imports or submodules loaded without one of them, processed, read, completed and processed again", D, len(pool))
 	h := []int{a, b}
 	n := 0
 	var rec func()
@@ -403,7 +447,7 @@ func classes(h []int) []string {
 	// a revision of module v arrives after a processing run that has bound an importer of v (w pins
 	// the older revision, x takes the latest) to the other revision
 	if lateRevision(h) {
-		cl = append(cl, "revision-of-an-imported-module-loaded-after-a-processing-run")
+		cl = append(cl, "revision-of-an-imported-or-included-module-loaded-after-a-processing-run")
 	}
 	if procs > 1 {
 		cl = append(cl, "processed-more-than-once")
@@ -426,33 +470,77 @@ func poolIndex(name string) int {
 	panic("no text " + name)
 }
 
-// lateRevision: one revision of v and an importer of v are loaded, a processing run follows, and
-// the other revision of v is loaded after it.
+// lateRevision: one revision of a module (submodule) and a module that imports (includes) it are
+// loaded, a processing run - or, once a run has taken place, a read, which builds the trees -
+// follows, and the other revision is loaded after it.
 func lateRevision(h []int) bool {
-	v1, v2, w, x := poolIndex("v1.yang"), poolIndex("v2.yang"), poolIndex("w.yang"), poolIndex("x.yang")
-	have := map[int]bool{}
-	bound := -1 // the revision of v an importer was bound to by a processing run (or, once a run has taken place, by a read: it builds the trees)
-	processed := false
-	for _, o := range h {
-		if o == opProcess || o == opGet {
-			processed = true
+	for _, fam := range [][]string{{"v1.yang", "v2.yang", "w.yang", "x.yang"}, {"ss1.yang", "ss2.yang", "sm.yang"}} {
+		r1, r2 := poolIndex(fam[0]), poolIndex(fam[1])
+		var users []int
+		for _, n := range fam[2:] {
+			users = append(users, poolIndex(n))
 		}
-		switch {
-		case o == opProcess || o == opGet || (o == opRead && processed):
-			if (have[w] || have[x]) && (have[v1] != have[v2]) && bound < 0 {
-				bound = v1
-				if have[v2] {
-					bound = v2
+		have := map[int]bool{}
+		bound := -1
+		processed := false
+		for _, o := range h {
+			if o == opProcess || o == opGet {
+				processed = true
+			}
+			switch {
+			case o == opProcess || o == opGet || (o == opRead && processed):
+				user := false
+				for _, u := range users {
+					user = user || have[u]
 				}
+				if user && (have[r1] != have[r2]) && bound < 0 {
+					bound = r1
+					if have[r2] {
+						bound = r2
+					}
+				}
+			case o >= 0:
+				if bound >= 0 && (o == r1 || o == r2) && o != bound && !have[o] {
+					return true
+				}
+				have[o] = true
 			}
-		case o >= 0:
-			if bound >= 0 && (o == v1 || o == v2) && o != bound && !have[o] {
-				return true
-			}
-			have[o] = true
 		}
 	}
 	return false
+}
+
+// maskTypes blanks what a leaf's dump line says about its type and the defaults that come from it.
+func maskTypes(s string) string {
+	var sb strings.Builder
+	for {
+		i := strings.Index(s, " type={")
+		if i < 0 {
+			break
+		}
+		sb.WriteString(s[:i])
+		depth, j := 0, i+6
+		for ; j < len(s); j++ {
+			if s[j] == '{' {
+				depth++
+			} else if s[j] == '}' {
+				depth--
+				if depth == 0 {
+					j++
+					break
+				}
+			}
+		}
+		sb.WriteString(" type=<masked>")
+		s = s[j:]
+		if strings.HasPrefix(s, " defaults=[") {
+			if k := strings.Index(s, "] parent="); k >= 0 {
+				s = s[k+1:]
+			}
+		}
+	}
+	sb.WriteString(s)
+	return sb.String()
 }
 
 func replay(tier string, raw json.RawMessage) (bool, string, string) {
